@@ -8,6 +8,7 @@ import Driver.C10
 import Driver.C16
 import Driver.C03
 import Driver.C12
+import Driver.C09
 open Driver
 
 /-- dispatch one request line; returns the output lines -/
@@ -28,6 +29,7 @@ def dispatch (line : String) : IO (List String) := do
   | "c16" :: args => cmdC16 args
   | "c03" :: args => cmdC03 args
   | "c12" :: args => cmdC12 args
+  | "c09" :: args => cmdC09 args
   | _ => return ["error unknown-command"]
 
 partial def loop (hin : IO.FS.Stream) (hout : IO.FS.Stream) : IO Unit := do
